@@ -1,0 +1,8 @@
+//! Verification hooks (cargo feature `verif`, off by default).
+//!
+//! Nothing in this module changes what the engine does unless a test harness
+//! explicitly activates it at run time:
+//! * [`io`]    — passive tap that records every file mutation the engine issues.
+//! * [`sched`] — cooperative scheduler points for deterministic thread schedules.
+//! * [`facade`] — thin wrappers exposing crate-private storage internals.
+pub mod io;
